@@ -133,6 +133,11 @@ class RecHook(Hooks):
             r.post_step_obs.append(dict(s=step.status.slot, t=r.tick(L.time), dt=r.tick(L.dt), k=step.status.iter,
                                         rs=bool(step.status.get('restart')), riar=int(step.status.get('restarts_in_a_row') or 0),
                                         u0=r.hid(L.u[0]), ue=r.hid(L.uend), obj=L.uend))
+            if now is not None and level_number == 0:
+                # work done BETWEEN steps (what an error-logging hook does through u_exact): it belongs to no step, so the
+                # work recorded for the next step in this slot must not contain it
+                for _ in range(1 + (int(step.status.slot) + int(step.status.iter)) % 3):
+                    L.prob.eval_f(L.u[0], L.time)
 
     def pre_predict(self, step, level_number):
         super().pre_predict(step, level_number)
